@@ -153,15 +153,15 @@ var props = map[string]*propCfg{
 		ID: "C07", Level: "model_checking", Exhaustive: true,
 		Rule:        "TLC enumerates documents (t: <= MaxRows rows with a numeric, a grouping column and a nested array of <= MaxNest objects; u: 0-2 rows) x query families: 7 inner queries (star, filter, GROUP BY with aggregates, ORDER BY + LIMIT, DISTINCT, computed column, empty) x 7 outer queries over the CTE; the same inners as aliased derived tables x 6 alias-qualified outers; CTE chains c -> d -> outer; a CTE referenced twice (source and <- IN subquery); a CTE read through a path selector c[0].n; 10 subquery shapes (select-list subquery plain / filtered / aggregate / rooted at <- / correlated through <-, IN subquery, EXISTS with and without an outer-column reference, NOT EXISTS, EXISTS AND ...). The invariant ComposedIsStaged compares RunQ with explicit materialise-then-run on the specification. Each case is replayed three ways: composed (= exported result), staged with the real engine (every CTE / derived table executed alone, result deep-copied into a plain document, outer query run over it), and select-list subqueries standalone on each kept row. Non-trivial: non-empty result; distinct = distinct (document, query).",
 		Assumptions: baseAssumptions,
-		Quick:       []legCfg{mc("compose", "MC_C07", "C07_quick.cfg", 10*time.Minute)},
-		Thorough:    []legCfg{mc("compose", "MC_C07", "C07_thorough.cfg", 40*time.Minute)},
+		Quick:       []legCfg{mc("compose", "MC_C07", "C07_quick.cfg", 10*time.Minute), tr("compose", "EngineTrace", 250, 4)},
+		Thorough:    []legCfg{mc("compose", "MC_C07", "C07_thorough.cfg", 40*time.Minute), tr("compose", "EngineTrace", 1500, 12)},
 	},
 	"C08": {
 		ID: "C08", Level: "model_checking", Exhaustive: true,
 		Rule:        "TLC enumerates documents {m: array of arrays}: depth 2 with 1..MaxOuter inner arrays of 0..MaxLeaf rows each (ragged, empty inner arrays) and depth 3 (arrays of arrays of 0-1-row arrays), rows from LeafVals values, x 4 WHERE predicates x 4 select lists (star, column, a+1 AS b which would reveal a second projection, alias + missing column) x {FROM m, FROM mix=>m}. The invariants state the nested result as 'the flat query inside every innermost array' and the mix=> result as the concatenation. Each case is replayed: nested result = exported; the flat query is run for real on every innermost array alone and compared with the corresponding part; mix=> = concatenation of those runs. Non-trivial: at least two innermost arrays and a non-empty overall result; distinct = distinct (document, query).",
 		Assumptions: baseAssumptions,
-		Quick:       []legCfg{mc("nested", "MC_C08", "C08_quick.cfg", 10*time.Minute)},
-		Thorough:    []legCfg{mc("nested", "MC_C08", "C08_thorough.cfg", 40*time.Minute)},
+		Quick:       []legCfg{mc("nested", "MC_C08", "C08_quick.cfg", 10*time.Minute), tr("nested", "EngineTrace", 250, 4)},
+		Thorough:    []legCfg{mc("nested", "MC_C08", "C08_thorough.cfg", 40*time.Minute), tr("nested", "EngineTrace", 1500, 12)},
 	},
 	"C19": {
 		ID: "C19", Level: "fault_enumeration", Exhaustive: true,
@@ -198,10 +198,10 @@ var props = map[string]*propCfg{
 	},
 	"C04": {
 		ID: "C04", Level: "model_checking", Exhaustive: true,
-		Rule:        "TLC enumerates every pair of tables of 0..MaxRows rows (two join columns per side - a number and a string - whose names sort differently on the two sides, duplicate keys, with Wide strings containing the key-text separator) x 50 ON expressions (every comparison operator in both orientations on the numeric pair, =, !=, < on the string pair, AND / OR of two comparisons in either order and orientation, one column compared twice) x {INNER, LEFT, RIGHT}, and checks that the operational models of the hash join and of the nested loop (Joins.tla) are bag-equal to the textbook join for every strategy Join.Exec can choose. Each case is executed under every spelling of the strategy (JOIN, INNER JOIN, HASH_JOIN, STRAIGHT_JOIN, PARALLEL JOIN, PARALLEL HASH_JOIN, PARALLEL STRAIGHT_JOIN; LEFT / RIGHT x {JOIN, HASH_JOIN, PARALLEL JOIN, PARALLEL HASH_JOIN}; PARALLEL ones three times) and the result compared as a multiset with the exported textbook result. Non-trivial: non-empty join result; distinct = distinct (tables, ON, type).",
+		Rule:        "TLC enumerates every pair of tables of 0..MaxRows rows (quick: <= 1 row per side with all 50 ON expressions and <= 2 rows with a core of 7; thorough: <= 2 rows with all 50 and <= 3 rows with the core) (two join columns per side - a number and a string - whose names sort differently on the two sides, duplicate keys, with Wide strings containing the key-text separator) x 50 ON expressions (every comparison operator in both orientations on the numeric pair, =, !=, < on the string pair, AND / OR of two comparisons in either order and orientation, one column compared twice) x {INNER, LEFT, RIGHT}, and checks that the operational models of the hash join and of the nested loop (Joins.tla) are bag-equal to the textbook join for every strategy Join.Exec can choose. Each case is executed under every spelling of the strategy (JOIN, INNER JOIN, HASH_JOIN, STRAIGHT_JOIN, PARALLEL JOIN, PARALLEL HASH_JOIN, PARALLEL STRAIGHT_JOIN; LEFT / RIGHT x {JOIN, HASH_JOIN, PARALLEL JOIN, PARALLEL HASH_JOIN}; PARALLEL ones three times) and the result compared as a multiset with the exported textbook result. Non-trivial: non-empty join result; distinct = distinct (tables, ON, type).",
 		Assumptions: baseAssumptions,
-		Quick:       []legCfg{mc("joins", "MC_C04", "C04_quick.cfg", 15*time.Minute), mc("wide", "MC_C04", "C04_wide.cfg", 15*time.Minute)},
-		Thorough:    []legCfg{mc("joins", "MC_C04", "C04_quick.cfg", 15*time.Minute), mc("wide", "MC_C04", "C04_wide.cfg", 15*time.Minute), mc("rows3", "MC_C04", "C04_thorough.cfg", 90*time.Minute)},
+		Quick:       []legCfg{mc("allons", "MC_C04", "C04_quick.cfg", 15*time.Minute), mc("rows2", "MC_C04", "C04_quick2.cfg", 15*time.Minute), mc("wide", "MC_C04", "C04_wide.cfg", 15*time.Minute), tr("joins", "EngineTrace", 250, 4)},
+		Thorough:    []legCfg{mc("joins", "MC_C04", "C04_full2.cfg", 30*time.Minute), mc("wide", "MC_C04", "C04_wide.cfg", 15*time.Minute), mc("rows3", "MC_C04", "C04_thorough.cfg", 90*time.Minute), tr("joins", "EngineTrace", 1500, 12)},
 	},
 	"C14": {
 		ID: "C14", Level: "model_checking", Exhaustive: true,
